@@ -37,6 +37,7 @@ def judge (stream : String) (kv : KV) : Option Verdict :=
   | "ex14" => some (ExJ.judge 14 kv)
   | "ex15" => some (ExJ.judge 15 kv)
   | "ex02" => some (ExJ.judge 2 kv)
+  | "ex01" => some (ExJ.judge 3 kv)
   | "ex03" => some (ExJ.judge 3 kv)
   | "ex20" => some (ExJ.judge 20 kv)
   | "ex16" => some (ExJ.judge 16 kv)
